@@ -20,6 +20,9 @@ pub struct CliRun {
     pub env: Vec<(String, String)>,
     /// pin to the first n cpus with taskset (0 = no pinning)
     pub cpus: usize,
+    /// run outside any repository: no .git/ at the root, scratch under the system temp dir
+    /// (created and removed within this call)
+    pub no_root: bool,
 }
 
 #[derive(Clone, Debug)]
@@ -43,9 +46,17 @@ pub fn scratch_dir() -> PathBuf {
 }
 
 pub fn run(r: &CliRun) -> CliOut {
-    let root = scratch_dir();
+    let root = if r.no_root {
+        std::env::temp_dir().join(format!("bwv_noroot_{}_{}", std::process::id(), COUNTER.fetch_add(1, Ordering::SeqCst)))
+    } else {
+        scratch_dir()
+    };
     let _ = std::fs::remove_dir_all(&root);
-    std::fs::create_dir_all(root.join(".git")).expect("scratch dir");
+    if r.no_root {
+        std::fs::create_dir_all(&root).expect("scratch dir");
+    } else {
+        std::fs::create_dir_all(root.join(".git")).expect("scratch dir");
+    }
     for (p, t) in &r.files {
         let path = root.join(p);
         if let Some(parent) = path.parent() {
@@ -231,7 +242,8 @@ pub fn interpret_list(o: &CliOut) -> Outcome<Vec<LBlock>> {
                         });
                     }
                 }
-                out.sort();
+                // stable, by file only: the order of a file's blocks is the implementation's (C03: source order)
+            out.sort_by(|a, b| a.file.cmp(&b.file));
                 Outcome::Ok(out)
             }
             _ => Outcome::Panic(format!("list: stdout is not one JSON object: {}", o.stdout)),
